@@ -48,6 +48,9 @@ def decide(prop, tier, seed, gdir, units, results, notes, wall):
                 for c in u.spec.funcs[r['function']].clauses:
                     if c.kind == 'ensures' and c.id == cid:
                         o = dict(o, tags=list(c.tags))
+            if o['kind'] == 'relational' and getattr(u, 'also_for', None) == prop and prop not in o['tags']:
+                # range form == single forms in order: part of the decision of every property that names the range forms
+                o = dict(o, tags=list(o['tags']) + [prop])
             if o['status'] not in ('SUCCESS', 'FAILURE'):
                 # the back end gave no verdict for this obligation (solver killed, out of memory, ...): undecided
                 undec.append('%s: no verdict (%s) for %s' % (r['unit'], o['status'], o['id'][:120]))
